@@ -81,7 +81,7 @@ fn first_diff(x: &[(Ret, Obs)], y: &[(Ret, Obs)], calls: &[Call]) -> Option<(usi
 }
 
 impl MultiEngine {
-    fn check(c: &MultiConcrete) -> (Option<Failure>, bool) {
+    pub(crate) fn check(c: &MultiConcrete) -> (Option<Failure>, bool) {
         let fail = |kind: &str, step: usize, d: String| Some(Failure { prop: "C19".into(), kind: kind.into(), step, detail: d });
         let Some(t1) = trace_of(c.a, &c.calls) else {
             return (None, false);
